@@ -51,6 +51,7 @@ func runC15(c *Ctx) {
 	// second request (a torn read); R14 (= C10.R22): a write the handler failed is not acknowledged
 	checkReadReplyTruthTable(c, "R13")
 	checkHandlersErrorIsTheOneReported(c, "R14")
+	checkRefusedWriteNotCounted(c, "R15")
 }
 
 // storeStepName: the instruction is a call on the backing object that the property treats as one atomic step.
